@@ -1277,6 +1277,10 @@ func (o *Map) IndexSet(index, value Object) (err error) {
 		err = ErrInvalidIndexType
 		return
 	}
+	// a key made by converting a non-string index is a new string value
+	if _, isStr := index.(*String); !isStr && len(strIdx) > MaxStringLen {
+		return ErrStringLimit
+	}
 	o.Value[strIdx] = value
 	return nil
 }
